@@ -81,3 +81,12 @@ PROPS['C10'] = dict(
     unit_modules=[], driver_modules=['drivers.c10'], level='other',
     level_text='tbd', level_note='tbd', assumptions=COMMON_ASSUMPTIONS,
 )
+
+PROPS['C14'] = dict(
+    unit_modules=[], driver_modules=['drivers.c14'], level='other',
+    level_text='tbd', level_note='tbd', assumptions=COMMON_ASSUMPTIONS,
+)
+PROPS['C15'] = dict(
+    unit_modules=[], driver_modules=['drivers.c15'], level='other',
+    level_text='tbd', level_note='tbd', assumptions=COMMON_ASSUMPTIONS,
+)
